@@ -81,11 +81,12 @@ func c01GetAlphabet() *c01Alphabet {
 			"! a comment line",         // a list may consist of nothing but such lines
 			"реклама-x$script",         // shares every window with the core rule: filed under a window that starts inside a character
 			"реклама-x$important",
+			c01LongRule(), // longer than the list scanner's 4 KiB buffer, filed by $domain; its last domain is a request source
 		)
 		long := "http://example.org/ads?" + strings.Repeat("x", 4070) + "/banner-ads-"
 		urls := []string{"http://example.org/", "https://sub.example.org/ads?x=1", "http://x.com/banner", "http://EXAMPLE.ORG/ADS", "http://example.org/?u=example.org",
 			"http://x.test/" + a.wA + "/", "http://x.test/" + a.wB + "/", "http://example.org/-ads-/ad", "https://y.test/ad", "http://x.test/реклама-x?q", "http://example.org/\u212aelvin-ads-/\u0130/ad", "http://ads1.example.org/?u=http://ads2.example.org/", long}
-		srcs := []string{"", "http://example.org/", "http://sub.example.org/", "https://www.google.co.uk/", "http://x.google.agoogle.com/", "http://" + a.hA + "/", "http://" + a.hB + "/", "http://x.com/", "http://user.github.io/", "http://a.co.uk/", "http://badexample.org/", "http://www.badexample.org/"}
+		srcs := []string{"", "http://example.org/", "http://sub.example.org/", "https://www.google.co.uk/", "http://x.google.agoogle.com/", "http://" + a.hA + "/", "http://" + a.hB + "/", "http://x.com/", "http://user.github.io/", "http://a.co.uk/", "http://badexample.org/", "http://www.badexample.org/", "http://site0399.test/"}
 		for _, u := range urls {
 			for _, s := range srcs {
 				for _, t := range []rules.RequestType{rules.TypeScript, rules.TypeDocument} {
@@ -105,6 +106,15 @@ func c01GetAlphabet() *c01Alphabet {
 		c01Alpha = a
 	})
 	return c01Alpha
+}
+
+// c01LongRule returns "/ad$script,domain=site0000.test|...|site0399.test" (> 4 KiB).
+func c01LongRule() string {
+	var ds []string
+	for i := 0; i < 400; i++ {
+		ds = append(ds, fmt.Sprintf("site%04d.test", i))
+	}
+	return "/ad$script,domain=" + strings.Join(ds, "|")
 }
 
 // c01Lists turns a history (rule indexes, len(rules) = "new list") into list
